@@ -381,6 +381,16 @@ var typeErrorQueries = []struct{ name, sql string }{
 	{"union.left", "SELECT ('x' + 1) AS v FROM t1 UNION ALL SELECT un1 AS v FROM u1"},
 	{"union.right", "SELECT un1 AS v FROM u1 UNION ALL SELECT ('x' + 1) AS v FROM t1"},
 	{"raise", "SELECT rid, RAISE('always') FROM t1"},
+	// "badrow.": the document gets one row whose `obj` is a string, so that a
+	// path through it raises a reader error on that row only
+	{"badrow.order", "SELECT rid, obj FROM t1 ORDER BY `obj.k`"},
+	{"badrow.order.desc", "SELECT rid, obj, n1 FROM t1 ORDER BY `obj.k` DESC, rid"},
+	{"badrow.order.derived", "SELECT q.rid FROM (SELECT rid, obj FROM t1 ORDER BY `obj.k`) q"},
+	{"badrow.order.cte", "WITH c1 AS (SELECT rid, obj FROM t1 ORDER BY `obj.k` DESC) SELECT rid FROM c1"},
+	{"badrow.order.union", "SELECT a.rid FROM (SELECT rid, obj FROM t1 ORDER BY `obj.k`) a UNION ALL SELECT rid FROM t1"},
+	{"badrow.join.key2", "SELECT x.rid FROM t1 x JOIN t1 y ON x.rid = y.rid AND x.`obj.k` = y.`obj.k`"},
+	{"badrow.join.key2-left", "SELECT x.rid FROM t1 x LEFT JOIN t1 y ON x.n1 = y.n1 AND x.rid = y.rid AND x.`obj.k` = y.`obj.k`"},
+	{"badrow.where.path", "SELECT rid FROM t1 WHERE `obj.k` >= 0"},
 	{"selector.from", "SELECT * FROM `t1[last]`"},
 	{"selector.range", "SELECT * FROM `t1[(1:x)]` WHERE n1 >= 0"},
 	{"selector.column", "SELECT rid, `arr[abc].e` AS v FROM t1"},
@@ -388,6 +398,13 @@ var typeErrorQueries = []struct{ name, sql string }{
 }
 
 // followUps: the battery run after a failed query on the same input object.
+// joinFollowUps are answered by the hash join: they run after a failed join
+var joinFollowUps = []string{
+	"SELECT x.rid, y.rid AS r2 FROM t1 x JOIN t1 y ON x.rid = y.rid",
+	"SELECT * FROM t1 x LEFT JOIN u1 y ON x.n1 = y.un1",
+	"SELECT x.rid, y.rid AS r2 FROM t1 x LEFT JOIN t1 y ON x.rid = y.rid AND x.n1 = y.n1",
+}
+
 var followUps = []string{
 	"SELECT rid, s1 FROM t1 WHERE n1 >= 0",
 	"SELECT DISTINCT * FROM t1",
